@@ -10,7 +10,7 @@
    Only the types [path], [entry], [fs], [listing] and the generic string helper [strip_suffix] are shared with
    the model. *)
 From Coq.Strings Require Import Byte String.
-From Coq Require Import List NArith Bool.
+From Coq Require Import List NArith ZArith Bool.
 Import ListNotations.
 From V Require Import lib.Bytes model.Walk.
 
@@ -26,7 +26,7 @@ Definition content_eqb (a b : content) : bool :=
 Definition entry_eqb (a b : option entry) : bool :=
   match a, b with
   | None, None => true | Some Dir, Some Dir => true
-  | Some (File x m), Some (File y n) => bytes_eqb x y && N.eqb m n
+  | Some (File x m), Some (File y n) => bytes_eqb x y && Z.eqb m n
   | _, _ => false
   end.
 
